@@ -2,14 +2,13 @@
 EXTENDS MC_File
 \* ---- generator
 CONSTANT GDepth
-VARIABLES hist, stored0, done
-gvars == <<fvars, hist, stored0, done>>
+VARIABLES hist, done
+gvars == <<fvars, hist, done>>
 GStored == {<<>>, <<7>>, <<7, 8, 9>>, <<4, 5, 6, 7, 8, 9>>}
 GPieces == {<<1>>, <<2, 3>>, <<1, 2, 3, 1>>}
 GCounts == {1, 2, 3, 5, 9}
 GOffsets == {-2, -1, 0, 1, 2, 3, 5, 8}
-GInit == /\ Init /\ hist = <<>> /\ done = FALSE
-         /\ stored0 = IF fl.trunc /\ fl.write THEN <<>> ELSE data
+GInit == Init /\ hist = <<>> /\ done = FALSE
 \* one random successor per step
 GPick ==
   LET k == RandomElement(1..100) IN
@@ -21,12 +20,12 @@ GPick ==
   ELSE IF k <= 88 THEN Truncate(RandomElement(Offsets))
   ELSE IF k <= 94 THEN StatH ELSE SyncH
 GStep == /\ ~done /\ Len(hist) < GDepth
-         /\ GPick /\ n' = n + 1
+         /\ GPick /\ n' = n + 1 /\ UNCHANGED stored
          /\ hist' = Append(hist, last')
-         /\ UNCHANGED <<stored0, done>>
+         /\ UNCHANGED done
 GEmit == /\ ~done /\ Len(hist) >= GDepth
-         /\ PrintT(<<"BEH", ToJson([flags |-> fl, stored |-> stored0, final |-> data, steps |-> hist])>>)
-         /\ done' = TRUE /\ UNCHANGED <<fvars, hist, stored0>>
+         /\ PrintT(<<"BEH", ToJson([flags |-> fl, stored |-> stored, final |-> data, steps |-> hist])>>)
+         /\ done' = TRUE /\ UNCHANGED <<fvars, hist>>
 GNext == GStep \/ GEmit
 GSpec == GInit /\ [][GNext]_gvars
 =============================================================================
